@@ -413,6 +413,9 @@ def run_cli_inprocess(res, q, A, hdr, exp, cfg, scratch, via_stdin):
     cli_expect_and_check(res, 'cli_inprocess_stdin' if via_stdin else 'cli_inprocess_file', q, text, A, hdr, exp, rc, out_bytes, fake_err.getvalue().encode(), cfg, None)
 
 
+ENV_MODES = [0]
+
+
 def run_cli_subprocess(res, q, A, hdr, exp, cfg, scratch, via_stdin):
     ddlm, dpol = cfg[3]
     p1, p2, po = [os.path.join(scratch, n) for n in ('t1.csv', 't2.csv', 'out.csv')]
@@ -430,6 +433,21 @@ def run_cli_subprocess(res, q, A, hdr, exp, cfg, scratch, via_stdin):
     env['PYTHONWARNINGS'] = 'ignore'
     env['PYTHONDONTWRITEBYTECODE'] = '1'
     env.pop('PYTHONPATH', None)
+    # the process environment is not an argument of the query: the same result under the inherited locale, an ASCII-only C / POSIX locale without UTF-8 mode, and C.UTF-8
+    # (query texts are ASCII; the data is not)
+    ENV_MODES[0] += 1
+    mode = ENV_MODES[0] % 4
+    for k_ in ('LC_ALL', 'LANG', 'LC_CTYPE', 'PYTHONUTF8', 'PYTHONIOENCODING'):
+        if mode:
+            env.pop(k_, None)
+    if mode == 1:
+        env.update({'LC_ALL': 'C', 'PYTHONUTF8': '0'})
+    elif mode == 2:
+        env.update({'LC_ALL': 'C.UTF-8'})
+    elif mode == 3:
+        env.update({'LC_ALL': 'POSIX', 'PYTHONUTF8': '0', 'PYTHONIOENCODING': 'ascii'})
+    env['PYTHONHASHSEED'] = str(ENV_MODES[0] % 3)       # three fixed hash seeds: set / dict-of-str iteration order is part of the environment too
+    res.feat('cli_subprocess_env_mode_%d' % mode)
     if via_stdin:
         with open(p1, 'rb') as f:
             data = f.read()
@@ -444,7 +462,7 @@ def run_cli_subprocess(res, q, A, hdr, exp, cfg, scratch, via_stdin):
             os.remove(po)
         if p.stdout:
             res.violation('cli-writes-to-stdout-with-output-file', {'query': text}, b'', p.stdout[:100])
-    cli_expect_and_check(res, 'cli_subprocess_stdin' if via_stdin else 'cli_subprocess_file', q, text, A, hdr, exp, p.returncode, out_bytes, p.stderr, cfg, None)
+    cli_expect_and_check(res, 'cli_subprocess_stdin' if via_stdin else 'cli_subprocess_file', q, text, A, hdr, exp, p.returncode, out_bytes, p.stderr, cfg, {'environment': ['inherited', 'LC_ALL=C PYTHONUTF8=0', 'LC_ALL=C.UTF-8', 'LC_ALL=POSIX PYTHONUTF8=0 PYTHONIOENCODING=ascii'][mode]})
 
 
 def run_cli_sqlite(res, q, A, exp, fmt, scratch, to_file, name_input):
@@ -805,7 +823,7 @@ def main(tier, seed):
         assumptions=['results are compared after str(); expressions are type-agnostic over string cells', 'child processes run with PYTHONWARNINGS=ignore (Python 3.12 prints its own SyntaxWarning when compiling rbql_engine.py from source)'],
         extra={'cli_configurations': [list(c[:3]) + [cfg_enc(c)] for c in CLI_CFGS]},
         min_features={'ep_query_table': 100, 'ep_query_registry_from': 1000, 'ep_pandas_duplicate_labels': 50, 'ep_join_table_registered_name': 6, 'ep_join_table_relative_to_cwd': 6, 'ep_join_table_tilde': 6, 'ep_default_init_file': 3, 'ep_cli_option_policy_monocolumn': 1, 'ep_cli_option_init_source_file': 1, 'ep_query_custom_classes': 100, 'ep_query_csv': 100, 'ep_query_csv_comment_prefix': 100, 'ep_pandas': 100, 'ep_sqlite_to_csv': 50, 'ep_cli_inprocess_file': 300, 'ep_cli_inprocess_stdin': 300,
-                      'ep_cli_sqlite_file': 300, 'ep_cli_sqlite_stdout': 300, 'ep_cli_subprocess_file': 30, 'ep_cli_subprocess_stdin': 30, 'cli_failures_ok': 20, 'failing_agree': 20})
+                      'ep_cli_sqlite_file': 300, 'ep_cli_sqlite_stdout': 300, 'cli_subprocess_env_mode_1': 30, 'cli_subprocess_env_mode_3': 30, 'ep_cli_subprocess_file': 30, 'ep_cli_subprocess_stdin': 30, 'cli_failures_ok': 20, 'failing_agree': 20})
 
 
 def replay(rep):
